@@ -16,16 +16,29 @@ from pyvc import front
 
 VERIF = os.path.dirname(os.path.dirname(os.path.abspath(__file__)))
 SEEDED = os.path.join(VERIF, "seeded")
+EXTRA = os.path.join(VERIF, "scenarios")  # scenarios that do not belong to a seeded change (baseline observations of the seed authors, repaired since)
 SLOW_S = 8.0  # demonstrations slower than this on the unchanged tree run in the thorough tier only
+
+
+def _dir(sid):
+    return os.path.join(SEEDED, sid) if os.path.exists(os.path.join(SEEDED, sid, "demo.py")) else os.path.join(EXTRA, sid)
+
+
+def _all_ids():
+    ids = set()
+    for root in (SEEDED, EXTRA):
+        if os.path.isdir(root):
+            ids.update(sid for sid in os.listdir(root) if os.path.exists(os.path.join(root, sid, "demo.py")))
+    return ids
 
 
 def _scenarios(pid):
     out = []
-    for sid in sorted(os.listdir(SEEDED)):
-        if not sid.startswith(pid + "_") or not os.path.exists(os.path.join(SEEDED, sid, "demo.py")):
+    for sid in sorted(_all_ids()):
+        if not sid.startswith(pid + "_"):
             continue
         secs = None
-        mp = os.path.join(SEEDED, sid, "meta.json")
+        mp = os.path.join(_dir(sid), "meta.json")
         if os.path.exists(mp):
             try:
                 secs = json.load(open(mp)).get("demo_seconds_on_clean_tree")
@@ -45,6 +58,7 @@ def run_scenario(sid, timeout=900):
     m = tempfile.mkdtemp(prefix="scn_%s_" % sid, dir=base)
     try:
         os.makedirs(os.path.join(m, "_seed"))
+        os.makedirs(os.path.join(m, "_home"))  # one home per scenario: isoquant keeps a json index of converted annotations there
         for f in os.listdir(front.REPO):
             if f.startswith(".git") or f == "_seed":
                 continue
@@ -53,8 +67,10 @@ def run_scenario(sid, timeout=900):
                 shutil.copytree(os.path.join(front.REPO, f), os.path.join(m, f), symlinks=True)
                 continue
             os.symlink(os.path.join(front.REPO, f), os.path.join(m, f))
-        shutil.copy(os.path.join(SEEDED, sid, "demo.py"), os.path.join(m, "_seed", "demo.py"))
-        env = dict(os.environ, HOME=os.path.join(base, "demo_home"), PYTHONDONTWRITEBYTECODE="1")
+        for f in os.listdir(_dir(sid)):
+            if f.endswith(".py"):
+                shutil.copy(os.path.join(_dir(sid), f), os.path.join(m, "_seed", f))
+        env = dict(os.environ, HOME=os.path.join(m, "_home"), PYTHONDONTWRITEBYTECODE="1")
         env.pop("PYTHONPATH", None)
         py = "/venv/bin/python" if os.path.exists("/venv/bin/python") else sys.executable
         try:
@@ -98,7 +114,7 @@ def _make(pid):
     return check
 
 
-for _pid in sorted({sid.split("_")[0] for sid in os.listdir(SEEDED)} if os.path.isdir(SEEDED) else []):
+for _pid in sorted({sid.split("_")[0] for sid in _all_ids()}):
     if _scenarios(_pid):
         bounded("%s.scenarios" % _pid, [_pid],
                 note="scenario library: %d demonstration(s) written by independent agents for seeded changes; each builds its inputs, drives the "
